@@ -24,7 +24,7 @@ def handle (op : String) (args : List String) : String :=
     withSchema dsl fun S => withTree S a fun A => withTree S b fun B =>
       let D := diff S (o != "0") A B
       let b := fun (x : Bool) => if x then "1" else "0"
-      "ok " ++ b (goodL S A) ++ " " ++ b (goodL S B) ++ " " ++ b (noUserOrdL S D) ++ " " ++ b (exactDiff S A D)
+      "ok " ++ b (goodT S A) ++ " " ++ b (goodT S B) ++ " " ++ b (noUserOrdL S D) ++ " " ++ b (exactDiff S A D)
   | "reverse", [dsl, a, b, o] =>
     withSchema dsl fun S => withTree S a fun A => withTree S b fun B =>
       let dflt := o != "0"
